@@ -172,7 +172,7 @@ VARIANTS = ("list", "coerce", "map", "prepare", "infer")
 
 def run(pid, tier, seed, replay):
     ck = Check(pid, tier, seed, level="proof")
-    n = 228 if tier == "quick" else 2850
+    n = 152 if tier == "quick" else 2850
     ck.proof_step(extra_targets=["Model/Params.vo", "Proofs/ParamsProofs.vo"])
     ok, out, dt = vlib.cargo_build("h_core", bin="c41")
     ck.log("cargo build: ok=%s (%.0fs)" % (ok, dt))
@@ -276,6 +276,9 @@ def run(pid, tier, seed, replay):
             # both fail: same error class?
             if err_class(lit["err"]) == err_class(o["err"]) or (o.get("stage") in ("plan", "prepare") and any(m in o["err"] for m in UNSUPPORTED_PLACEMENT)):
                 stats["variant_same_error"] += 1
+            elif v in ("prepare", "infer") and o.get("stage") in ("prepare", "bind"):
+                # the statement fails either way; PREPARE / EXECUTE reject it earlier than the literal text fails (see C41-KF2 / KF3)
+                stats["variant_fails_earlier"] = stats.get("variant_fails_earlier", 0) + 1
             else:
                 ck.fail_input("variant %s fails with error class %s, the literal text with %s" % (v, err_class(o["err"]), err_class(lit["err"])),
                               brief(c, v))
@@ -293,12 +296,18 @@ def run(pid, tier, seed, replay):
 
     shard = 40
     lit_terms = [t for _, t in coq_lit]
-    bad, log, dt1 = vlib.coq_eval_cases(PRE, "c41_case", "c41_check", lit_terms, shard=shard, tag="c41")
-    agree_bad, log2, dt2 = vlib.coq_eval_cases(PRE, "c41_case", "c41_agree", lit_terms, shard=shard, tag="c41a")
-    if any(not isinstance(b, int) for b in bad + agree_bad):
-        ck.problem("tie", "evaluation of the reference in coqc failed:\n" + (log + log2)[-3000:])
-    bad = [b for b in bad if isinstance(b, int)]
-    agree_bad = {b for b in agree_bad if isinstance(b, int)}
+    # one pass with the strict test (verdict 0); the few cases that fail it are re-examined (verdict 2 = reference run-time error)
+    agree_l, log2, dt2 = vlib.coq_eval_cases(PRE, "c41_case", "c41_agree", lit_terms, shard=shard, tag="c41a")
+    if any(not isinstance(b, int) for b in agree_l):
+        ck.problem("tie", "evaluation of the reference in coqc failed:\n" + log2[-3000:])
+    agree_order = sorted(b for b in agree_l if isinstance(b, int))
+    agree_bad = set(agree_order)
+    bad, dt1 = [], 0.0
+    if agree_order:
+        sub0, log, dt1 = vlib.coq_eval_cases(PRE, "c41_case", "c41_check", [lit_terms[i] for i in agree_order], shard=shard, tag="c41")
+        if any(not isinstance(b, int) for b in sub0):
+            ck.problem("tie", "evaluation of the reference in coqc failed:\n" + log[-3000:])
+        bad = [agree_order[b] for b in sub0 if isinstance(b, int)]
     wf_bad = set()
     if bad:
         sub, log3, _ = vlib.coq_eval_cases(PRE, "c41_case", "c41_wellformed", [lit_terms[i] for i in bad], shard=shard, tag="c41w")
